@@ -1,7 +1,7 @@
 (* C13 — slashing/jailing and admin operations compose safely. *)
 From stdpp Require Import gmap.
 Require Import Model.Base Model.Validate Model.State Model.Staking Model.Slashing Model.Poa Model.App.
-Require Import proofs.L1More proofs.Inv proofs.InvIdx proofs.InvPres proofs.InvMsgs proofs.InvHistory.
+Require Import proofs.L1More proofs.Inv proofs.InvIdx proofs.InvPres proofs.InvMsgs proofs.InvHistory proofs.InvQueue proofs.InvPools.
 
 (* admin operations aimed at a jailed validator fail cleanly (the transaction wrapper then restores the state) *)
 Theorem C13_set_power_on_jailed_fails : forall c val power unsafe v,
@@ -30,3 +30,22 @@ Theorem C13_jailed_owns_no_index_entry : forall g bs id v p,
 Proof.
   intros g bs id v p Hg s Hv Hj. destruct (reachable_CI g bs Hg) as [HS _]. eapply jailed_owns_nothing; eauto. apply HS.
 Qed.
+
+(* slashing, jailing, removal and re-admission in any order never leave the unbonding queue and the records out
+   of step: a removed or jailed validator that waits in the queue is unbonding under exactly the key it is filed
+   under, so its maturity (or its return to the set) finds what it expects *)
+Theorem C13_queue_and_records_agree : forall g bs t h ids id,
+  wf_genesis g ->
+  let s := stk (w_chain (run_world (init_world g) bs)) in
+  ubq s !! (t, h) = Some ids -> In id ids ->
+  exists v, vals s !! id = Some v /\ v_status v = Unbonding /\ v_ubtime v = t /\ v_ubheight v = h.
+Proof. intros g bs t h ids id Hg s. apply (qi_sound _ (reachable_QI g bs Hg)). Qed.
+
+(* a downtime slash that follows any sequence of admin operations finds the tokens it burns: in every reachable
+   state Slash can fail only on a validator that is already Unbonded (which the slashing module never targets:
+   it skips jailed validators, and a validator is Unbonded only after having left the set for a whole unbonding period) *)
+Theorem C13_slash_never_short_of_funds : forall g bs k p f,
+  wf_genesis g -> 0 <= f ->
+  let c := w_chain (run_world (init_world g) bs) in
+  slash c k p f = None -> exists id v, by_cons (stk c) !! k = Some id /\ vals (stk c) !! id = Some v /\ v_status v = Unbonded.
+Proof. exact reachable_slash_funds. Qed.
